@@ -760,6 +760,15 @@ func CheckModuli(q, p []uint64) error {
 				return fmt.Errorf("a Pi (i=%d) is not a prime", i)
 			}
 		}
+
+		// Q and P must be coprime (basis extension and division by P).
+		for i, pi := range p {
+			for j, qj := range q {
+				if pi == qj {
+					return fmt.Errorf("Pi (i=%d) is equal to Qi (i=%d)", i, j)
+				}
+			}
+		}
 	}
 
 	return nil
